@@ -46,7 +46,7 @@ CHECKS = {
              "every behaviour of a small recorded model and `-simulate` behaviours (depth 40) are replayed on the real Python "
              "TimerScheduler and the real Rust TimerContext, and those recordings plus seeded random runs with large periods "
              "and cycle origins up to 2^62 are validated step by step by TLC against TraceTimers.tla (FiredIffBoundary, "
-             "NextInFuture, NeverWhenOff, FireSetsIsr; the firmware acknowledging status bits between ticks is an action of the traces); Python and Rust sequences are also compared directly. Machine level: whole "
+             "NextInFuture, NeverWhenOff, FireSetsIsr; the firmware acknowledging status bits between ticks is an action of the traces; gaps of more than 2^24 periods landing on / next to a boundary are included); Python and Rust sequences are also compared directly. Machine level: whole "
              "machines running with both timers are saved and restored into fresh machines at every script position (the C16 "
              "campaign) and the firing cadence after the restore is compared with the uninterrupted run (snapshot_cadence). "
              "Unbounded: ind/TimersInd.tla states the one-timer argument over mathematical integers and Apalache discharges it - "
@@ -65,7 +65,8 @@ CHECKS = {
              "length <=3 over sleeps {0,1,2,3} and emits, budgets {1,2,3,5,100} chosen at every run_for; thorough adds 3 "
              "tasks) WakeExact, TimeMonotone, PartitionIndependent (log is a prefix of the budget-free reference log), "
              "EventsOnceInOrder, Accounting. Every behaviour of a recorded model, 4-task `-simulate` behaviours and seeded "
-             "random task sets are executed on the real AsyncDriver (vh driver) and the recordings validated by TLC against "
+             "random task sets are executed on the real AsyncDriver (vh driver; every other behaviour with its sleep futures created at task start "
+             "and awaited later) and the recordings validated by TLC against "
              "TraceScheduler.tla; AsyncRuntimeRunner (slices 1,2,3,7,10000, split runs) is compared with CoreRuntime::step on "
              "generated looping programs with timers and interrupts enabled.",
         design_ref="DESIGN.md section 4 (C18)",
@@ -84,7 +85,8 @@ CHECKS = {
              "the one-to-one / one-column predicates; the complete pixel map of each implementation (all 8192 VRAM bits probed "
              "through the protocol) is judged by TLC, with both chips on and again with each chip switched off in turn (OwnChipOnly: what the "
              "chip that is on shows does not depend on the other chip's on/off state); DisplayDetermined: a Python controller that renders after "
-             "every access shows the same picture as a fresh one given the same accesses.",
+             "every access shows the same picture as a fresh one given the same accesses; the random sequences also go through PCE500Memory's LCD "
+             "overlays with non-zero RAM lying under both windows.",
         design_ref="DESIGN.md section 4 (C15)",
         note="Trusted: TLC, vh harness (lcd.rs), Python driver in checks/c15.py. One known finding (writes at read addresses, Rust vs Python) is listed in known_findings.json.",
         technique="TLA+ spec (Lcd.tla, PixelMap.tla) + TLC exhaustive/simulate + trace validation of both implementations + complete pixel-map enumeration judged by TLC",
@@ -98,7 +100,7 @@ CHECKS = {
              "through the four real consumers (instruction-info / text / low-level-IL callbacks, emulator fetch) in its base "
              "form, with three trailing contexts (valid / rejected / assertion-tripping bytes), every truncation and after an "
              "adversarial decode history; in the follower campaign a few valid bases are followed by every one of the 65536 two-byte "
-             "instruction heads; TLC judges every recorded row (JudgeDecode.tla): LenBounds, ConsumersAgree, "
+             "instruction heads; every opcode is also tried with operand bytes forming the extreme addresses / immediates (all ones, top of the external space, ignored upper bits set); TLC judges every recorded row (JudgeDecode.tla): LenBounds, ConsumersAgree, "
              "IndependentOfLaterBytes, IndependentOfHistory, NoUnexpectedError, plus comparison with the reference format (drift).",
         design_ref="DESIGN.md section 4 (C01)",
         note="Trusted: TLC, harness/py/decode_harness.py, binja_test_mocks. Operand bytes after the second byte are seeded fill. A genuine defect found by this check was repaired (fix: commit in /repo, recorded in known_findings.json).",
@@ -122,7 +124,7 @@ CHECKS = {
              "stuttering step (RoundTrip = identity for the full field set; TLC checks it in all 19822 reachable states, and with a smaller field set "
              "names the states that break - the catalogue of snapshot points). Conformance, per implementation (Python PCE500Emulator, Rust "
              "CoreRuntime through vh with a PKZIP shim): 64 (thorough 600) seeded scripts of 8-18 items (timers, ON key, matrix keys, IMR/ISR writes, "
-             "HALT, OFF, WAIT, RETI); EVERY script position is a snapshot point: the live machine is saved, a FRESH machine loads the bundle, both "
+             "HALT, OFF, WAIT, RETI; keys held through a 90-instruction handler until the event ring wraps; a cycle counter crossing 2^31); EVERY script position is a snapshot point: the live machine is saved, a FRESH machine loads the bundle, both "
              "get the next 6 script items, and the full projection (power state, registers, IMEM, RAM, LCD, keyboard, timers, interrupt "
              "bookkeeping, counters) after the load and after every step is compared by TLC (JudgeSnapshot) component by component. Cross loading "
              "(each core loads the other's bundle) compares the immediately visible state; bundle members, registers.bin length and "
@@ -139,9 +141,9 @@ CHECKS = {
         text="Complete comparison, evaluated by TLC (spec/tables/Tables.tla over the reference table spec/isa/SC62015Table.tla): all 256 "
              "opcode rows of the live Python table and the live Rust table in a normalised operand-shape vocabulary, the PRE table, "
              "the single-addressable set, ~90 constant/layout groups (register storage sizes, effective masks probed by writing "
-             "0xFFFFFFFF, sub-register layout declared and probed, IMEM offsets, the keyboard register block as named and as selected by the "
+             "0xFFFFFFFF, sub-register layout declared and probed, IMEM offsets (Rust constants defined in terms of other constants are resolved), the keyboard register block as named and as selected by the "
              "Rust memory predicates over all 256 offsets, IMR/ISR bits, interrupt/reset vector addresses declared "
-             "and probed by executing IR/RESET/power-on-reset on both cores, address-space constants) and the Binary Ninja view segments "
+             "and probed by executing IR/RESET/power-on-reset on both cores, address-space constants) and the Binary Ninja view segments - as declared and as registered by init() for raw files of seven lengths - "
              "(pairwise disjoint, inside the address space, internal RAM placement). No state space: TLC evaluates equalities over finite tables.",
         design_ref="DESIGN.md section 4 (C17)",
         note="Trusted: vh tables/exec/regs modules, regex extraction of private Rust constants from the working tree, TLC. Two known findings (Rust widths for 0xBA-0xBE, Python reset vector) are listed in known_findings.json.",
@@ -154,7 +156,8 @@ CHECKS = {
              "by the inputs) is model-checked exhaustively (2-3 keys sharing a row/column, thresholds 2/2/3/2, capacity 3, both "
              "polarities, depth 7-8): KilSound, KilComplete, EventOrder, Cadence, NoSkippedRepeat, ReleaseFollows, ReleaseJustified, FifoBounded, "
              "DropsOldestOnly. TLC behaviours (exhaustive depth 5, `-simulate` depth 60/120) and seeded random histories are executed on "
-             "the real Python KeyboardMatrix/PCE500KeyboardHandler (constructor thresholds) and the real Rust KeyboardMatrix (repeat on and off, strobe-flicker campaign; + KEYI via "
+             "the real Python KeyboardMatrix/PCE500KeyboardHandler (constructor thresholds) and the real Rust KeyboardMatrix (repeat on and off, strobe-flicker campaign, redundant presses of held keys, an opposite-polarity decoy keyboard in the same process, "
+             "twelve-key bursts producing more events in one tick than the queue holds; + KEYI via "
              "write_fifo_to_memory); TraceKeyboard.tla evaluates the property clauses on each implementation's own observations (KIL "
              "value, enqueued events, queue contents, KEYI bit) and compares each step with the automaton (drift).",
         design_ref="DESIGN.md section 4 (C14)",
@@ -175,7 +178,7 @@ CHECKS = {
              "with strobe / KIL-read instructions injected at instruction boundaries); TraceMachine.tla evaluates the clauses of C12 on every "
              "recorded step (pushed frame contents, delivery counter and reported source, registers, power state, timer targets) with monitors "
              "for saved frames (incl. the source each was entered for) and expected resume addresses; every third script also runs on a Rust runtime "
-             "built with keyboard interrupts disabled (the spec is told: KEYI then neither arms nor wakes); StatusNotLost: a status bit goes away only "
+             "built with keyboard interrupts disabled (the spec is told: KEYI then neither arms nor wakes), and handlers that re-enable interrupts nest two to seven levels deep; StatusNotLost: a status bit goes away only "
              "by a firmware write or at the RETI of the handler entered for it.",
         design_ref="DESIGN.md section 4 (C12)",
         note="Trusted: TLC, vh rt module, harness/py/machine_harness.py. One defect repaired (fix: a24bc1d, Rust RETI acknowledged the live irq_source latch); open findings on the Python machine (master-enable override, OFF = HALT, pending flag not re-armed, stale source attribution) and the Rust core (stray RETI clears a pending bit) are listed in known_findings.json. The debounce automaton itself is covered by C14.",
@@ -190,7 +193,8 @@ CHECKS = {
              "encoding (prefix x opcode x mode byte x operand palette incl. 00/FF/7F/80 displacements; 42750 quick, all 15 prefixes thorough; "
              "undocumented but accepted forms included) is rendered, turned into source text (TInt/TAddr tokens as 0x literals, named internal "
              "registers by name), assembled by Assembler().assemble, disassembled and assembled again; TLC judges every record. Encodings that share their operand "
-             "selector byte run in one process and every text is re-assembled in reverse order (a text whose bytes changed is observed and judged again). On the model, "
+             "selector byte run in one process and every text is re-assembled in reverse order (a text whose bytes changed is observed and judged again); "
+             "listings of two to four rendered lines are assembled by one assemble() call and must equal the concatenation of the lines assembled alone. On the model, "
              "TLC checks over the structural space (MCSemSpace) that the canonical reading is total and depends on the instruction's own bytes only.",
         design_ref="DESIGN.md section 4 (C09)",
         note="Trusted: the text convention of checks/c09.text_of, decode_harness.il_digest, TLC. Eight open known findings, all disagreements between "
@@ -238,8 +242,8 @@ CHECKS = {
              "against the PC and stack the Python emulator and the Rust core actually reach, for every branch/call/return encoding (bare and behind each kind of addressing prefix) x 24 addresses (page boundaries +-3, "
              "top of memory, seeded random) x target/displacement palettes x all C/Z values, and for every other documented encoding ('no branch => "
              "continues at address + length'); targets modulo 2^20. (2) Pairing laws: CallRet.tla is an abstract machine over (pc, s, f, imr, frames) "
-             "with actions Call, CallF, Ir, stack-neutral body instructions, Ret, RetF, RetI; TLC checks StackShape and ReturnLaw exhaustively to 4 "
-             "actions at nesting depth 2 (91992 states) and every maximal behaviour is replayed, one instruction per action, on the Python emulator and "
+             "with actions Call, CallF, Ir, stack-neutral body instructions, a computed jump through the stack (Dispatch), Ret, RetF, RetI; TLC checks StackShape and "
+             "ReturnLaw exhaustively to 5 actions at nesting depth 3 (310896 states) and every maximal behaviour is replayed, one instruction per action, on the Python emulator and "
              "the Rust core, comparing (pc, s, C/Z, IMR) after every action (thorough: + 30000 simulated behaviours of 13 actions).",
         design_ref="DESIGN.md section 4 (C05)",
         note="Trusted: exec_harness, vh exec module, binja_test_mocks InstructionInfo, TLC. One defect repaired (fix: 434d3a6, JP (n)/JP r3 metadata). "
@@ -283,7 +287,8 @@ CHECKS = {
         category="model_checking",
         text="SC62015Sem.tla is an executable TLA+ transcription of the README instruction tables (Exec: destination value, C/Z where the table "
              "defines them, pointer/counter/stack side effects; Unspecified: states the README does not cover). TLC (JudgeSem) judges every "
-             "recorded one-instruction execution of the Python core - every documented structural encoding x seeded base / boundary-wide / "
+             "recorded one-instruction execution of the Python core (block moves of more than 32768 bytes by BlockCore: counter, pointers, flags, number of external "
+             "locations written) - every documented structural encoding x seeded base / boundary-wide / "
              "long-block states (3 per encoding quick, 10 thorough; overlapping two-operand block ranges and block lengths 0x100-0x234 for the "
              "block moves with an external operand added) - clause by clause: result "
              "registers, next PC, flag values, flags the table marks '-' preserved, written memory, and the frame condition (every other "
